@@ -427,6 +427,28 @@ def translate_guards(net) -> list:
                    and x.func.value.id == nm for x in ast.walk(wfn)):
                 raise TranslatorError("get_walkable_addresses adds to the set object stored in services_per_peer (a query "
                                       "that changes the graph)")
+    # a mutator must not keep the caller's container (aliasing across the API boundary): what discover_services stores in /
+    # unions into services_per_peer has to be a fresh `set(...)`
+    dfn = _fn(N, "discover_services")
+    fresh = set()
+    for st in dfn.body if not isinstance(dfn.body[-1], ast.With) else dfn.body[-1].body:
+        if isinstance(st, ast.Assign) and len(st.targets) == 1 and isinstance(st.targets[0], ast.Name) \
+                and _callname(st.value) == "set":
+            fresh.add(st.targets[0].id)          # unconditional top-level `x = set(...)`
+    def _is_fresh(v):
+        return _callname(v) == "set" or (isinstance(v, ast.Name) and v.id in fresh and False)
+    for x in ast.walk(dfn):
+        tgt = val = None
+        if isinstance(x, ast.Assign) and len(x.targets) == 1:
+            tgt, val = x.targets[0], x.value
+        elif isinstance(x, ast.AugAssign):
+            tgt, val = x.target, x.value
+        if tgt is not None and isinstance(tgt, ast.Subscript) and _is_self_attr(tgt.value, "services_per_peer"):
+            if isinstance(x, ast.Assign) and not _is_fresh(val):
+                raise TranslatorError("discover_services stores an object it did not create in services_per_peer "
+                                      f"(`{ast.unparse(x)}`): the caller's container would be shared")
+    L.append("/-- discover_services stores a private `set(...)` per peer (checked on the AST) -/")
+    L.append("def svcsStoresCopy : Bool := true")
     return L
 
 
